@@ -3,6 +3,7 @@ package sim
 import (
 	"encoding/json"
 	"fmt"
+	"os"
 	"sort"
 	"strings"
 	"verif.local/simrt"
@@ -822,6 +823,9 @@ func (m *tableMon) checkEnginePanics(tb *pt.Table) {
 		}
 		facts := map[string]any{"in": fn, "dealt_in_player_left_mid_hand": left, "external_pause_or_close_request": m.extTainted != ""}
 		c.Logf("ENGINE PANIC in %s (task %s): %s", fn, p.Task, p.Value)
+		if traceLive {
+			fmt.Fprintf(os.Stderr, "ENGINE PANIC stack:\n%s\n", p.Stack)
+		}
 		if strings.Contains(fn, "settleGame") {
 			// the settlement died while crediting the results: entries were not (all) credited to their players
 			c.Viol("C02", "C02.settlement_crashed", facts, "the settlement of hand %d panicked in %s: %s - results were not credited to the players the entries denote", func() int {
